@@ -239,6 +239,7 @@ int main(int argc, char **argv)
 	static const size_t out_sizes[] = { 0, 1, 100, 5000, 65536, (size_t)-1 };
 	lzma_ret ret = LZMA_OK;
 	lzma_action pending_action = LZMA_RUN;   // a flush in progress must be repeated with the same input
+	long lateact = arg(argc, argv, "lateact", 0);
 	long reinit_after = arg(argc, argv, "reinit_after", -1);
 	long split_at = arg(argc, argv, "split_at", -1);
 	int holdcalls = 0;
@@ -287,6 +288,14 @@ int main(int argc, char **argv)
 				action = (lzma_action)act_kind[next_act];
 			else
 				action = LZMA_RUN;
+			// lateact=1: the bytes first (LZMA_RUN), then - after the workers had time to use them up and go to
+			// sleep - the flush / barrier / finish action in a call of its own that brings no new input
+			if (lateact && action != LZMA_RUN) {
+				if (strm.avail_in > 0)
+					action = LZMA_RUN;
+				else
+					usleep(2000);
+			}
 		}
 		size_t g = slicing ? out_sizes[rnd() % (sizeof(out_sizes) / sizeof(out_sizes[0]))] : (size_t)-1;
 		if (g > outcap - op) g = outcap - op;
